@@ -281,6 +281,25 @@ def prove(ctx, prop_files, oblig_files=()):
     return ok
 
 
+def coqchk(ctx):
+    """thorough tier: re-check the property's compiled Props files (and everything they depend on) with the
+    independent checker and record the axioms it reports."""
+    mods = []
+    for n in sorted(os.listdir(os.path.join(COQ, "Props"))):
+        if n.endswith(".v") and n.startswith(ctx.prop) and os.path.exists(os.path.join(COQ, "Props", n[:-2] + ".vo")):
+            mods.append("ACH.Props." + n[:-2])
+    if not mods:
+        ctx.cov["coqchk"] = "no compiled Props file"
+        return
+    rc, out = sh(["coqchk", "-silent", "-o", "-Q", ".", "ACH"] + mods, cwd=COQ, timeout=3400)
+    tail = out[out.find("CONTEXT SUMMARY"):] if "CONTEXT SUMMARY" in out else out[-1500:]
+    ctx.cov["coqchk"] = {"modules": mods, "rc": rc, "summary": " ".join(tail.split())[:1200]}
+    if rc != 0:
+        ctx.diag.append("coqchk failed on %s: %s" % (mods, out[-400:]))
+    elif "Axioms: <none>" not in " ".join(tail.split()):
+        ctx.trusted.append("coqchk -o reports: " + " ".join(tail.split())[:600])
+
+
 def forbidden_vernacular():
     """grep the development for vernacular the brief forbids."""
     bad = []
